@@ -129,7 +129,23 @@ class CFG:
                 out.append((h, "done"))
             return out
         if isinstance(s, (ast.Try,)):
-            raise AnalysisError("try statement in %s (not part of PyXAB's statement subset)" % self.fn.name)
+            # conservative: an exception may leave the protected block after any of its statements (and before the first), so
+            # every handler is reachable from the entry of the block and from each node inside it
+            entry = self._new("stmt", ast.copy_location(ast.Pass(), s))
+            self.of_stmt[id(s)] = entry
+            for p, lab in preds:
+                self._edge(p, entry, lab)
+            first = len(self.nodes)
+            out = self._block(s.body, [(entry, None)], brk, cont)
+            inside = [n for n in self.nodes[first:] if n.kind in ("stmt", "test", "for")]
+            if s.orelse:
+                out = self._block(s.orelse, out, brk, cont)
+            for h in s.handlers:
+                hp = [(entry, None)] + [(n, None) for n in inside]
+                out = out + self._block(h.body, hp, brk, cont)
+            if s.finalbody:
+                out = self._block(s.finalbody, out, brk, cont)
+            return out
         if isinstance(s, ast.With):
             raise AnalysisError("with statement in %s" % self.fn.name)
         n = self._new("stmt", s)
